@@ -145,6 +145,8 @@ class Unit:
                 for f in t.get("inner", []):
                     if f.get("kind") != "FunctionDecl":
                         continue
+                    if self.opts.get("only") and f.get("name") not in self.opts["only"]:
+                        continue
                     body = [c for c in f.get("inner", []) if c.get("kind") == "CompoundStmt"]
                     if not body:
                         continue
@@ -513,9 +515,9 @@ class Unit:
                     raise ExtractionBreak("function %s: loop contract for loop %d but only %d loops" % (target, lid, f.loops))
             if f.loops and not spec.loops and not spec.extra.get("unwind"):
                 raise ExtractionBreak("function %s has %d loop(s) but no loop contract" % (target, f.loops))
-        has_loops = (not is_lemma) and bool(spec.loops)
+        has_loops = (not is_lemma) and (bool(spec.loops) or bool(spec.extra.get("apply_loops")))
         return dict(unit=self.name, target=key, fname=target, cfile=cfile, harness=hname, enforce=None if is_lemma else target,
-                    replaced=replaced, loops=has_loops, linemap=linemap, inputs=inputs, spec=spec, is_lemma=is_lemma,
+                    replaced=replaced, loops=has_loops, unwind=(None if is_lemma else spec.extra.get("unwind")), linemap=linemap, inputs=inputs, spec=spec, is_lemma=is_lemma,
                     hstart=hstart, functions=order, text=text, rec=(not is_lemma and spec.rec))
 
     def lemma_harness(self, lem):
